@@ -80,6 +80,44 @@ def run(rep, tier, seed, b):
                 if not d.one(['valid', core.T(reported), S(out)]):
                     rep.oracle_failures.append({'clause': 'decoder output obeys the constraints in force (as reported by get_semantic_constraints) after a history of calls',
                                                 'input': {'ops': ops + [['get'], op]}, 'impl': out, 'reported_table': reported, 'klass': classify(out)})
+    # a REJECTED table must not come into force, not even partly: after set_semantic_constraints raised, every output obeys the table that was in force before
+    default = dict(s_.get_preset_constraints('default'))
+    sat = {'N': '[N]' + '[Branch1][C][F]' * 5 + '[F]', 'P': '[P]' + '[Branch1][C][F]' * 7 + '[F]', 'O': '[O]' + '[Branch1][C][F]' * 4 + '[F]', 'C': '[C]' + '[Branch1][C][F]' * 6 + '[F]',
+           'S': '[S]' + '[Branch1][C][F]' * 7 + '[F]', 'B': '[B]' + '[Branch1][C][F]' * 5 + '[F]', 'F': '[F][=C][=C]', 'Cl': '[Cl][Branch1][C][C][C]', 'Si': '[Si]' + '[Branch1][C][F]' * 7 + '[F]'}
+    for _ in range(40 if tier == 'quick' else 800):
+        bad = dict(default)
+        for el in rng.sample(sorted(sat), 3):
+            bad[el] = rng.choice([6, 7, 8])
+        why = rng.random()
+        if why < 0.35:
+            bad['?'] = rng.choice([-1, -3])
+        elif why < 0.55:
+            del bad['?']
+        elif why < 0.8:
+            bad[rng.choice(H.BAD_KEYS)] = 3
+        else:
+            bad[rng.choice(sorted(sat))] = rng.choice([-2, None])
+        items_ = [[k, v] for k, v in bad.items()]
+        rng.shuffle(items_)
+        if '?' in bad and rng.random() < 0.5:      # the offending entry last: everything before it has been looked at already
+            items_ = [kv for kv in items_ if kv[0] != '?'] + [['?', bad['?']]]
+        warm = [['dec', sat[el], False, False] for el in rng.sample(sorted(sat), 2)] if rng.random() < 0.5 else []
+        ops = warm + [['new', items_], ['set', ['held', 0]]]
+        tail = [['dec', sat[el], False, False] for el in sorted(sat)]
+        im = H.impl_run(ops + [['get']] + tail)
+        rep.evaluations += len(tail)
+        rep.impl_traces += 1
+        if not isinstance(im, list) or 'err' not in (im[len(ops) - 1] or {}):
+            rep.count('history: the table meant to be rejected was accepted (not judged)')
+            continue
+        for op, o in zip(tail, im[len(ops) + 1:]):
+            t = (o or {}).get('trans') or {}
+            if 'ok' in t:
+                out = t['ok'][0]
+                rep.count('history: decoded after a rejected table')
+                if not d.one(['valid', core.T(default), S(out)]):
+                    rep.oracle_failures.append({'clause': 'decoder output obeys the constraints in force - after a REJECTED set_semantic_constraints call these are still the ones in force before it',
+                                                'input': {'ops': ops + [['get'], op]}, 'impl': out, 'table_in_force': default, 'klass': classify(out)})
     # RDKit (sampled support, default table + robust alphabet)
     if tier == 'thorough':
         try:
@@ -129,7 +167,7 @@ def replay(data):
         im = H.impl_run(i['ops'])
         ok = True
         if isinstance(im, list):
-            rep_t = {k: v for k, v in (im[-2] or {}).get('dict', []) if k is not None}
+            rep_t = f.get('table_in_force') or {k: v for k, v in (im[-2] or {}).get('dict', []) if k is not None}
             t = ((im[-1] or {}).get('trans') or {})
             ok = 'ok' not in t or bool(drv().one(['valid', core.T(rep_t), S(t['ok'][0])]))
         return {'ops': i['ops'], 'impl': im, 'fails': not ok}
